@@ -44,19 +44,22 @@ def find_all_dependencies(
 ) -> Dependencies:
     """Dependencies contains class variables (because they can be "fake" ones as in
     dataclasses)"""
-    if func not in cache:
-        dependencies = set(find_dependencies(func))
-        for attr in list(dependencies):
-            if not hasattr(cls, attr):
+    if func in cache:
+        return cache[func]
+    dependencies = set(find_dependencies(func))
+    for attr in list(dependencies):
+        if not hasattr(cls, attr):
+            continue
+        member = getattr(cls, attr)
+        if isinstance(member, property):
+            member = member.fget
+        if callable(member):
+            dependencies.remove(attr)
+            if member in rec_guard:
                 continue
-            member = getattr(cls, attr)
-            if isinstance(member, property):
-                member = member.fget
-            if callable(member):
-                dependencies.remove(attr)
-                if member in rec_guard:
-                    continue
-                rec_deps = find_all_dependencies(cls, member, {*rec_guard, member})
-                dependencies.update(rec_deps)
+            rec_deps = find_all_dependencies(cls, member, {*rec_guard, member})
+            dependencies.update(rec_deps)
+    if not rec_guard:
+        # inside a recursion, the result can be truncated by the recursion guard
         cache[func] = dependencies
-    return cache[func]
+    return dependencies
